@@ -33,7 +33,7 @@ FLOORS = {"quick": {"events": 60000, "new_acks": 20000, "dup_acks": 10000, "fast
                        "timeouts": 40000, "slow_start_acks": 100000, "cong_avoid_acks": 100000, "deflations": 20000,
                        "short_dup_runs": 16000, "new_segments_checked": 400000, "guard_tight": 60000,
                        "cubic_cases": 4000, "reno_cases": 4000, "multi_segment_acks": 60000, "rtt_above_rto": 10000}}
-KEYS = tuple(FLOORS["quick"].keys()) + ("candidate_forks",)
+KEYS = tuple(FLOORS["quick"].keys()) + ("candidate_forks", "simultaneous_timeouts")
 MSS = 512
 
 
@@ -371,12 +371,32 @@ def run_case(case, stats):
                         bad("timeout-retransmissions-wrong", "at a retransmission-timer expiry the sender did not retransmit exactly the expired unacknowledged segments",
                             {"now": env.now, "expired": expired, "retransmitted": retx})
                         break
+                    vals = []
                     for s in expired:
                         stats["timeouts"] += 1
                         for w in worlds:
                             w.on_timeout_cc()
                             w.rto *= 2
-                        arm[s] = (env.now, worlds[0].rto)
+                        vals.append(worlds[0].rto)
+                    if len(expired) == 1:
+                        arm[expired[0]] = (env.now, vals[0])
+                    else:
+                        # several timers expired in one instant: each doubling re-arms one of them, in the
+                        # order their processes woke up, which the boundary cannot see.  The public
+                        # Timer.expire_time tells which timer got which of the expected values (it must be
+                        # a permutation of them).
+                        stats["simultaneous_timeouts"] += 1
+                        remaining = list(vals)
+                        for s in expired:
+                            t = sender.timers.get(s)
+                            rv = None if t is None else t.expire_time - env.now
+                            m = next((v for v in remaining if rv is not None and vnet.close(rv, v, rel=1e-9, abs_=1e-9)), None)
+                            if m is None:
+                                bad("timer-rearmed-with-unexpected-rto", "after simultaneous timeouts a timer was not re-armed with one of the successively doubled RTO values",
+                                    {"segment": s, "rearmed_for": rv, "expected_one_of": vals})
+                                m = remaining[0]
+                            remaining.remove(m)
+                            arm[s] = (env.now, m)
                     if not compare("timeout"):
                         break
                 if viol:
